@@ -31,7 +31,7 @@ using namespace vf;
 namespace {
 
 struct Args {
-    std::string prop, mode = "sem", out, replay, minimize, workdir = ".", inflight, corpus, bytes;
+    std::string prop, mode = "sem", out, replay, minimize, workdir = ".", inflight, corpus, bytes, history;
     uint64_t seed = 1;
     long cases = 100;
     int maxsize = 100;
@@ -108,8 +108,11 @@ void write_replay(const std::string &path, const Args &a, const Tape &canon, con
     while (std::getline(ds, line)) f << "# " << line << "\n";
 }
 
+/// `warmup_tape=` lines (any number, before or after `tape=`): cases executed first, in file order, in the same process; their verdicts
+/// are ignored.  They are the earlier part of a history when a failure depends on state that an earlier case left behind in the
+/// library (a function-local static, a thread_local buffer, a static member).
 bool read_replay(const std::string &path, std::string &prop, std::string &mode, Tape &tape,
-                 std::map<std::string, std::string> *xdata = nullptr) {
+                 std::map<std::string, std::string> *xdata = nullptr, std::vector<Tape> *warmups = nullptr) {
     std::ifstream f(path);
     if (!f) return false;
     std::string line;
@@ -120,6 +123,8 @@ bool read_replay(const std::string &path, std::string &prop, std::string &mode, 
         else if (line.rfind("tape=", 0) == 0) {
             tape = tape_from_string(line.substr(5));
             have = true;
+        } else if (line.rfind("warmup_tape=", 0) == 0) {
+            if (warmups) warmups->push_back(tape_from_string(line.substr(12)));
         } else if (xdata && line.size() > 1 && line[0] == 'x') {
             auto eq = line.find('=');
             if (eq != std::string::npos) (*xdata)[line.substr(0, eq)] = line.substr(eq + 1);
@@ -322,7 +327,8 @@ int run_replay(const Args &a) {
     std::string prop = a.prop, mode = a.mode;
     Tape t;
     RunCtx ctx;
-    if (!read_replay(a.replay, prop, mode, t, &ctx.xdata)) {
+    std::vector<Tape> warmups;
+    if (!read_replay(a.replay, prop, mode, t, &ctx.xdata, &warmups)) {
         fprintf(stderr, "cannot read replay file %s\n", a.replay.c_str());
         return 2;
     }
@@ -332,6 +338,18 @@ int run_replay(const Args &a) {
     ctx.want_desc = true;
     ctx.workdir = a.workdir;
     Tape canon;
+    if (!warmups.empty()) {
+        RunCtx w = ctx;
+        w.xdata.clear();
+        w.want_desc = false;
+        for (const Tape &wt: warmups) {
+            Tape wc;
+            try {
+                (void) ENGINE.run(w, wt, wc);
+            } catch (...) {}
+        }
+        printf("(%zu earlier case(s) of the history executed first)\n", warmups.size());
+    }
     CaseResult r = ENGINE.run(ctx, t, canon);
     mem_mode_filter(ctx, r);
     printf("%s", r.desc.c_str());
@@ -459,6 +477,7 @@ int main(int argc, char **argv) {
         else if (k == "--inflight") a.inflight = val();
         else if (k == "--dump-corpus") a.corpus = val();
         else if (k == "--bytes") a.bytes = val();
+        else if (k == "--history") a.history = val(); // append the canonical tape of every case executed before the first failure
         else if (k == "--seed") a.seed = strtoull(val().c_str(), nullptr, 10);
         else if (k == "--cases") a.cases = atol(val().c_str());
         else if (k == "--maxsize") a.maxsize = atoi(val().c_str());
@@ -539,6 +558,10 @@ int main(int argc, char **argv) {
                 snprintf(nm, sizeof nm, "/seed-%05zu", corpus_written++);
                 std::ofstream cf(a.corpus + nm, std::ios::binary);
                 cf.write((const char *) canon.data(), canon.size() * sizeof(uint64_t));
+            }
+            if (!failing_seen && !a.history.empty() && r.ok) {
+                std::ofstream hf(a.history, std::ios::app);
+                hf << tape_to_string(canon) << "\n";
             }
             if (!failing_seen) {
                 merge_result(st, r, canon, a.prop);
